@@ -444,6 +444,20 @@ def main(run: Run) -> int:
     bodies: list[tuple] = []
     for n in range(0, depth + 1):
         bodies.extend(itertools.product(KINDS, repeat=n))
+    # statement positions matter to the patcher (it inserts nodes with a running offset), so every
+    # small body is also explored behind a prefix of 1..24 neutral statements, and every pair of
+    # documented members with 0..3 statements between them behind such a prefix
+    pad_depth = 3 if run.thorough else 2
+    small: list[tuple] = []
+    for n in range(1, pad_depth + 1):
+        small.extend(itertools.product(KINDS, repeat=n))
+    for p in range(1, 25):
+        for b in small:
+            bodies.append(("ex", ) * p + b)
+        for g in range(0, 4):
+            for k1, k2 in itertools.product(("ss", "sl", "sb", "se"), repeat=2):
+                bodies.append(("ex", ) * p + ("pa", k1) + ("pr", ) * g + ("pa", k2))
+                bodies.append(("pa", "sp") * (p // 2) + ("pa", k1) + ("ex", ) * g + ("pa", k2, "ex"))
     bodies = rotate(bodies, run.seed * 101)
     size = max(200, len(bodies) // (NCPU * 8))
     for r in pmap(_bodies_work, [bodies[i:i + size] for i in range(0, len(bodies), size)],
@@ -489,7 +503,8 @@ def main(run: Run) -> int:
                 run.violation(f"determinism:{name}", f"output differs from the first pass in "
                     f"{len(diff)} pages (e.g. {diff[:3]}), page sets differ by {sorted(missing)[:3]}",
                     {"package": True, "key": f"determinism:{name}"})
-    run.note(patcher_depth=depth, statement_kinds=KINDS, generation_passes=sorted(digests))
+    run.note(patcher_depth=depth, padded_bodies="prefix of 1..24 neutral statements x bodies of <= "
+        f"{pad_depth} statements, and pairs of documented members with gaps 0..3", statement_kinds=KINDS, generation_passes=sorted(digests))
     return run.finish(
         rule="(a) all module bodies of <= n statements over 11 statement kinds, each patched and "
         "executed for real with flag probes; (b) whole-package generation with a flag / canary "
